@@ -80,7 +80,7 @@ def random_free(kind, c, rng, n):
     return steps
 
 
-def run_family(prop, tier, plan, free_plan, assumptions, mc_extra=(), post=None):
+def run_family(prop, tier, plan, free_plan, assumptions, mc_extra=(), post=None, idle_plan=()):
     import time
     res = vlib.Result(prop, tier)
     tm = {}
@@ -137,6 +137,29 @@ def run_family(prop, tier, plan, free_plan, assumptions, mc_extra=(), post=None)
                 scen[n] = sc
                 f.write(json.dumps(sc) + "\n")
     tm["generate"] = round(time.time() - t0, 1); t0 = time.time()
+    # IDLETIMEOUT: a live source (rows keep arriving, most of them below the maximum seen so far) must not be declared idle;
+    # once the feed stops, the idle timeout may flush the open windows
+    with open(sc_path, "a") as f:
+        for kind, c, count in idle_plan:
+            for _ in range(count):
+                n += 1
+                idle = rng.choice([120, 150, 200])
+                gap = rng.choice([20, 30, 40])
+                top = rng.randint(3, c["size"] - 1)
+                steps = [{"a": "add", "id": 1, "ts": top}]
+                for i in range(2, int(3.5 * idle / gap) + 2):
+                    ts = rng.randint(0, top) if rng.random() < 0.85 else top + rng.choice([0, 1])
+                    top = max(top, ts)
+                    steps.append({"a": "add", "id": i, "ts": ts, "gap": gap})
+                cfg = mkcfg(kind, dict(c, al=0), rng)
+                # event time close behind the wall clock (the idle flush advances the watermark to now - MOO and the engine then
+                # steps through every window up to it): the scenario's windows end 15-25 s before now
+                import time as _t
+                period = c["size"] * c.get("slide", 1)
+                cfg.update(idle=idle, ahead=False, unit=1000, base=((int(_t.time()) - 25) // period) * period)
+                sc = {"tr": n, "cfg": cfg, "steps": steps, "free": True}
+                scen[n] = sc
+                f.write(json.dumps(sc) + "\n")
     rc, out = vlib.sh([vh, "win", "-scen", sc_path, "-out", tr_path, "-par", "16"], 1500)
     if rc != 0:
         raise vlib.Inconclusive("driver failed:\n" + out[-3000:])
